@@ -2,9 +2,10 @@
 # Development aid: run quick checks against a scratch worktree that carries a seeded change.
 #   ./seedtest.sh <worktree> <id> [<id> ...]        (evidence and replay files go to /tmp/jv-seed/, work and target dirs to /var/tmp/join-verif-seed)
 wt=$1; shift
+tag=$(basename $wt)
 cd "$(dirname "$0")"
 for id in "$@"; do
-  JV_WORK=${JV_WORK:-/var/tmp/join-verif-seed} JOIN_REPO=$wt JV_EVIDENCE_DIR=/tmp/jv-seed/evidence JV_REPLAY_DIR=/tmp/jv-seed/replays ./check $id --tier ${TIER:-quick} > /tmp/jv-seed-$id.log 2>&1
-  echo "$id rc=$? $(grep -m1 '^\[' /tmp/jv-seed-$id.log | cut -c1-170)"
-  grep -m3 -A2 '^VIOLATION' /tmp/jv-seed-$id.log | cut -c1-400
+  JV_WORK=${JV_WORK:-/var/tmp/join-verif-seed} JOIN_REPO=$wt JV_EVIDENCE_DIR=/tmp/jv-seed/$tag/evidence JV_REPLAY_DIR=/tmp/jv-seed/$tag/replays ./check $id --tier ${TIER:-quick} > /tmp/jv-seed-$tag-$id.log 2>&1
+  echo "$id rc=$? $(grep -m1 '^\[' /tmp/jv-seed-$tag-$id.log | cut -c1-170)"
+  grep -m3 -A2 '^VIOLATION' /tmp/jv-seed-$tag-$id.log | cut -c1-400
 done
